@@ -54,12 +54,19 @@ fn handle_client(stream: TcpStream, dbs: Arc<Databases>) {
     let mut reader = BufReader::new(&stream);
     let writer = &mut BufWriter::new(&stream);
     let (mut client, mut receiver) = Client::new_empty_and_receiver();
-    writer.write_fmt(format_args!("ok \n")).unwrap();
-    writer.flush().unwrap();
+    if let Err(e) = writer
+        .write_fmt(format_args!("ok \n"))
+        .and_then(|_| writer.flush())
+    {
+        log::debug!("Client disconnected before the greeting: {}", e);
+        return;
+    }
     loop {
         let mut buf = String::new();
         let read_line = reader.read_line(&mut buf);
-        stream.set_nonblocking(true).unwrap();
+        if let Err(e) = stream.set_nonblocking(true) {
+            log::debug!("tcp_ops::handle_client set_nonblocking Error: {}", e);
+        }
         match read_line {
             Ok(_) => {
                 log::debug!("Command print: {}", clean_string_to_log(&buf, &dbs));
@@ -122,7 +129,9 @@ fn process_message(receiver: &mut Receiver<String>, writer: &mut BufWriter<&TcpS
     match receiver.try_next() {
         Ok(message_opt) => match message_opt {
             Some(message) => {
-                writer.write_fmt(format_args!("{}", message)).unwrap();
+                if let Err(e) = writer.write_fmt(format_args!("{}", message)) {
+                    log::warn!("process_message write Error: {}", e);
+                }
                 match writer.flush() {
                     Ok(_n) => (),
                     Err(e) => log::warn!("process_message Error: {}", e),
